@@ -534,5 +534,15 @@ theorem sound_ann (compat : Bool) (a : ToolAnn) (o : AnnObs) (c : Clause) (h : a
   · simp [annMonitor, h1, h2 rfl] at h
   · simp [annMonitor, h1] at h
 
+/-! ## capabilities clones -/
+
+/-- the clone encodes like the original, no write through one shows in the other, and an extension added to the
+clone is stored there only -/
+def P_cloneIndependent (o : CloneObs) : Prop := o.same = true ∧ o.aliased = 0 ∧ o.ext = some true
+
+theorem sound_clone (o : CloneObs) (c : Clause) (h : cloneMonitor o = some c) : ¬ P_cloneIndependent o := by
+  rintro ⟨h1, h2, h3⟩
+  simp [cloneMonitor, h1, h2, h3] at h
+
 end Mon
 end Wire
